@@ -24,6 +24,9 @@ def check(chk, fx):
     lr.all_table_rules(chk, fx)
     from .. import primrules
     primrules.prims(chk, fx, "GAPI2")         # the grammar the table is built from is the grammar the user wrote
+    primrules.prims(chk, fx, "NAMEFILL")
+    from .. import termrules
+    termrules.termapi(chk, fx)
     # a rule's symbols are resolved by name / id: a wrong resolution builds the table for another grammar
     from . import c17
     c17.symbol_lookup(chk, fx)
